@@ -396,9 +396,28 @@ func txHistRun(sc *TxHistScenario) (res *txHistResult) {
 			}
 			for doBlockStep() {
 			}
+			pre := sn.node.txs.VerifUnconfirmed()
 			if err := sn.cleanRestart(); err != nil {
 				res.add("C11/restart/load-failed", err.Error())
 				return res
+			}
+			post := sn.node.txs.VerifUnconfirmed()
+			for h, a := range pre {
+				b, ok := post[h]
+				switch {
+				case !ok:
+					res.add("C11/tracking-lost", fmt.Sprintf("tx%d was tracked as unconfirmed before the clean restart and is not afterwards", idOf[h]))
+				case a.Unsafe != b.Unsafe || a.Safe != b.Safe || a.Trusted != b.Trusted:
+					res.add("C11/flags-changed", fmt.Sprintf("tx%d unsafe/safe/trusted %v/%v/%v became %v/%v/%v across a clean restart", idOf[h], a.Unsafe, a.Safe, a.Trusted, b.Unsafe, b.Safe, b.Trusted))
+				case a.Time.UnixNano()/1000000 != b.Time.UnixNano()/1000000:
+					res.add("C11/first-seen-changed", fmt.Sprintf("tx%d first-seen time changed across a clean restart (%v -> %v)", idOf[h], a.Time, b.Time))
+				}
+				if len(pre) > 0 {
+					flags["tracked-across-restart"] = true
+				}
+			}
+			if len(post) > len(pre) {
+				res.add("C11/tracking-invented", "the unconfirmed set has more entries after a clean restart than before")
 			}
 			uns = nil // untrusted connections do not survive a process restart
 			m.restartAt = append(m.restartAt, sn.step)
@@ -575,6 +594,9 @@ func judgeTxHistory(sn *stepNode, sc *TxHistScenario, txs []*wire.MsgTx, idOf ma
 						res.add("C11/confirmation-proof-invalid", fmt.Sprintf("confirmation update of tx%d carries a proof the independent verifier rejects", i))
 					}
 				}
+			}
+			if !hasProofUpdate && newCount <= 1 && len(m.restartAt) > 0 {
+				res.add("C11/confirmation-not-update", fmt.Sprintf("tx%d was delivered unconfirmed, the node restarted cleanly, and its later confirmation produced no state update with a merkle proof", i))
 			}
 			if !hasProofUpdate && newCount <= 1 {
 				res.add("C03/confirmation-not-update", fmt.Sprintf("tx%d was delivered unconfirmed and later confirmed, but no state update with a merkle proof followed", i))
